@@ -405,28 +405,49 @@ def pushLine (st : RState) (k : LKind) (t : Str) : RState :=
 /-- `args.split(" ")[0]` -/
 def firstField (s : Str) : Str := s.takeWhile (· != cSp)
 
-/-- one iteration of `for line in ifd` -/
-def readLine (A : Answers) (o : Opts) (st : RState) (raw : Str) : Except Err RState := do
-  if isBlankOrComment raw then
-    return pushLine st .blank raw
+/-- What one iteration of `for line in ifd` finds on its line. -/
+inductive Classified
+  | blank (raw : Str)                     -- blank or comment line: kept as it is
+  | eups (text : Str)                     -- a setup line for the `eups` pseudo-product: goes to the final block
+  | setup (text : Str) (prod : Option Prod)   -- a line matching `rex` after the substitutions
+  | other (text : Str)                    -- anything else (comment stripped)
+deriving Repr, DecidableEq
+
+/-- the line-local part of an iteration: classify, strip the comment, substitute -/
+def classify (A : Answers) (o : Opts) (raw : Str) : Except Err Classified := do
+  if isBlankOrComment raw then return .blank raw
   let line ← subAll A o (stripComment raw)
   match searchRex line with
   | some m =>
-    let st := if !st.cur.isSetup then
-        { st with prev := st.prev ++ [st.cur], cur := ⟨true, []⟩, lastSetup := some (st.prev.length + 1) }
-      else st
     if !m.args.isEmpty then
       let name := firstField m.args
-      if name == sEups then
-        return { st with final := st.final ++ [line] }
-      else
-        return pushLine { st with products := st.products ++
-          [⟨name, m.optional, contains sExternal line, line, (splitWs m.args).contains sDashJ⟩] } .setup line
-    else
-      return pushLine st .setup line
-  | none =>
-    let st := if st.cur.isSetup then { st with prev := st.prev ++ [st.cur], cur := ⟨false, []⟩ } else st
-    return pushLine st .other line
+      if name == sEups then return .eups line
+      else return .setup line (some ⟨name, m.optional, contains sExternal line, line, (splitWs m.args).contains sDashJ⟩)
+    else return .setup line none
+  | none => return .other line
+
+/-- open a new setup block unless the current one is one -/
+def openSetup (st : RState) : RState :=
+  if !st.cur.isSetup then
+    { st with prev := st.prev ++ [st.cur], cur := ⟨true, []⟩, lastSetup := some (st.prev.length + 1) }
+  else st
+
+/-- open a new non-setup block if the current one is a setup block -/
+def openOther (st : RState) : RState :=
+  if st.cur.isSetup then { st with prev := st.prev ++ [st.cur], cur := ⟨false, []⟩ } else st
+
+/-- the bookkeeping part of an iteration -/
+def step (st : RState) : Classified → RState
+  | .blank raw => pushLine st .blank raw
+  | .eups t => let st := openSetup st; { st with final := st.final ++ [t] }
+  | .setup t none => pushLine (openSetup st) .setup t
+  | .setup t (some p) => let st := openSetup st; pushLine { st with products := st.products ++ [p] } .setup t
+  | .other t => pushLine (openOther st) .other t
+
+/-- one iteration of `for line in ifd` -/
+def readLine (A : Answers) (o : Opts) (st : RState) (raw : Str) : Except Err RState := do
+  let c ← classify A o raw
+  pure (step st c)
 
 def readAll (A : Answers) (o : Opts) (lines : List Str) : Except Err RState :=
   lines.foldlM (readLine A o) {}
